@@ -364,7 +364,7 @@ def main():
     m = dict(
         version=1,
         setup_cmd="cd lean && lake build " + " ".join(f"JoblibProofs.{c['property_id']} drv_{c['property_id'].lower()}" for c in checks)
-        + " JoblibProofs.M1L drv_m1l JoblibProofs.M1LSeq drv_m1lseq",
+        + " JoblibProofs.M1L drv_m1l JoblibProofs.M1LSeq drv_m1lseq JoblibProofs.M1LU drv_m1lu",
         hooks=dict(
             guard="JOBLIB_VERIF",
             enable="no source hooks: checks import joblib from /repo's working tree (VERIF_REPO overrides the path) and "
